@@ -15,7 +15,7 @@ extern "C" {
 			for (; i < (dstlen-1) && i < r.length(); ++i) {
 				dst[i] = r[i];
 			}
-			dst[dstlen-1] = '\0';
+			dst[i] = '\0';
 		}
 
 		return r.length();
